@@ -84,6 +84,45 @@ class MemPath:
     def open(self, mode="r"):
         return MemFile(self, mode)
 
+    def replace(self, target):
+        """os.replace: atomic rename over the target."""
+        target = target if isinstance(target, MemPath) else MemPath(self.fs, target)
+        self.fs.op(f"rename {self.p} -> {target.p}")
+        if self.p not in self.fs.files:
+            raise FileNotFoundError(self.p)
+        self.fs.files[target.p] = self.fs.files.pop(self.p)
+        return target
+
+    rename = replace
+
+    def unlink(self, missing_ok=False):
+        self.fs.op(f"unlink {self.p}")
+        if self.p in self.fs.files:
+            del self.fs.files[self.p]
+        elif not missing_ok:
+            raise FileNotFoundError(self.p)
+
+    @property
+    def name(self):
+        return self.p.rsplit("/", 1)[-1]
+
+    @property
+    def parent(self):
+        return MemPath(self.fs, self.p.rsplit("/", 1)[0] or "/")
+
+    def with_name(self, name):
+        return self.parent / name
+
+    def with_suffix(self, suffix):
+        base = self.name.rsplit(".", 1)[0] if "." in self.name else self.name
+        return self.parent / (base + suffix)
+
+    def is_file(self):
+        return self.p in self.fs.files
+
+    def is_dir(self):
+        return self.p in self.fs.dirs
+
 
 class MemFile:
     def __init__(self, path, mode):
@@ -210,6 +249,25 @@ class MemFrame:
 
     def __getitem__(self, k):
         return MemSeries(self.cols[k])
+
+    def dropna(self, **kw):
+        """pandas.DataFrame.dropna(): rows with any missing cell are removed (a NaN written by to_csv is read back as missing)."""
+        import math
+
+        n = len(next(iter(self.cols.values()))) if self.cols else 0
+        keep = [i for i in range(n) if not any(isinstance(v[i], float) and math.isnan(v[i]) for v in self.cols.values())]
+        return MemFrame({k: [v[i] for i in keep] for k, v in self.cols.items()})
+
+    def reset_index(self, **kw):
+        return self
+
+    def fillna(self, value, **kw):
+        import math
+
+        return MemFrame({k: [value if (isinstance(x, float) and math.isnan(x)) else x for x in v] for k, v in self.cols.items()})
+
+    def __len__(self):
+        return len(next(iter(self.cols.values()))) if self.cols else 0
 
     def to_csv(self, path, **kw):
         path = path if isinstance(path, MemPath) else None
